@@ -8,7 +8,7 @@ vt=/tmp/vt_$id
 [ -f $src/patch.diff ] || { echo "no patch for $id"; exit 2; }
 git -C /repo worktree remove --force $vt 2>/dev/null
 git -C /repo worktree add -q --detach $vt HEAD || exit 2
-mkdir -p $vt/_seed && cp $src/demo.py $vt/_seed/
+mkdir -p $vt/_seed && cp $src/* $vt/_seed/ && rm -f $vt/_seed/patch.diff
 cd $vt
 /venv/bin/python _seed/demo.py > /tmp/vt_$id.orig.out 2>&1; o=$?
 git apply $src/patch.diff || { echo "$id: patch does not apply"; git -C /repo worktree remove --force $vt; exit 2; }
